@@ -46,7 +46,9 @@ ASSUMES = ["c16_exact: the deltas are uint64 values, the first one non-zero, the
            "c16_latest_observed: one writer at a time (the controllers serialise ProcessWrite), generated keys increase (c16_fresh_and_greater)"]
 RULE = ("seq: one case = 15-40 requests against a fresh real DB, 1-3 puts each, 75% sequence puts on prefixes {s, q/x, s-0, t-, a/b-c, m/n/o, z} with 1-3 deltas from "
         "{1,2,3,10^19,2^63,2^64-2,2^64-1,0 (not first),random}, arity sometimes growing, other writes elsewhere, deletes of generated keys, in 20% of the cases plain keys "
-        "written under the prefixes; every response and dump digest compared with the model, every sequence put checked against the big-integer reference; "
+        "written under the prefixes, and in 35% of the requests 1-3 ordinary puts BEFORE (and one after) the sequence puts of the same request with comparer-stressing keys "
+        "(first segments of 8-11 bytes with a later '/', equal 8-byte prefixes with and without '/', neighbours below '/'; prefixes {orders-seq, /orders/seq, zz, A} on either "
+        "side of them in the slash order and in the bytewise order of the first 8 bytes); every response and dump digest compared with the model, every sequence put checked against the big-integer reference; "
         "sub: one case = a forced schedule of 4-12 steps (writes held between key generation and commit, failing batches, subscriptions before / during / after writes, "
         "commits placed between the subscriber's read and its initial write, receives) compared with the transition system; "
         "msub (in the sub leg): several subscribers on two prefixes subscribing / closing / receiving between sequence puts in every order, incl. the scripted "
